@@ -1,6 +1,8 @@
 import Srtla.Model.Conn
 import Srtla.Lemmas.Conn
 import Srtla.Lemmas.SysDirWin
+import Srtla.Lemmas.SelShellFrame
+import Srtla.Lemmas.Audit2BReset
 /-!
 # C06 — congestion windows stay in range and move in the right direction
 
@@ -231,7 +233,8 @@ sequence of the per-link operations that event may apply to that link.  Here:
   changes only through those tear-downs / REG3.
 * `C06_direction_client / _flush / _config / _uplink / _hk`, `C06_direction_sys` — direction of every window
   change of every link in every event.
-* `C06_reset_ops`, `C06_reset_sys` — the tear-downs.
+* `C06_reset_ops`, `C06_reset_sys` — the tear-downs (effect ⇒ cause); `C06_teardown_resets_window_sys` — cause ⇒ reset
+  (`TearCause`, `TornDown`), the converse frame, and the periodic flush that is never a tear-down.
 * `C06_fast_recovery_sys`, `C06_fast_recovery_run` — entry / exit of fast recovery, per event and along runs.
 
 Scalar-generic (hold at `Float`).
@@ -929,69 +932,268 @@ one of four things happens to the link:
    (fast-recovery flag included) is KEPT;
 3. housekeeping's reconnect of a timed-out link that is due: the same clean state, congestion state CLEARED
    (fast recovery off);
-4. REG3 arriving on this link: window KEPT, congestion state cleared (fast recovery off), connected. -/
+4. REG3 arriving on this link: window KEPT, congestion state cleared (fast recovery off), connected.
+
+Audit round 2: every arm of case 2 / 3 now names its CAUSE in the pre-state — the client arm: an injected send
+failure for this link's conn id was pending (`connId ∈ s.failNext`) and was CONSUMED by the event, and the link is
+the chosen link (`clientTarget`) or a connected link of a registered session that received a stall-probe copy
+(guard on, data packet); the uplink arm: the datagram is a REG_ERR (type 0x9210) on this link's conn id; the
+housekeeping arms: the link is timed out, a reconnect attempt is due, and it is not the never-established link
+whose start-up grace window this very tick re-arms (`Hk.hkGraceIdx`).  This theorem reads "IF the link looks torn
+down THEN a cause"; the converse "IF a cause THEN reset" is `C06_teardown_resets_window_sys`. -/
 theorem C06_reset_sys (s : Sys.Sys F) (e : Sys.Ev) (j : Nat) (l l' : FLink F)
     (hl : s.links[j]? = some l) (hl' : (Sys.step s e).1.links[j]? = some l') :
     (l'.core.connected = l.core.connected ∧ (l'.core.phase = .registering ↔ l.core.phase = .registering)) ∨
     (l'.core.window = 20000 ∧ l'.core.connected = false ∧ l'.core.phase = .registering ∧ l'.core.log = [] ∧
       l'.core.inFlight = 0 ∧ l'.queue = [] ∧
       ((l'.core.cong = l.core.cong ∧
-          ((∃ now pkt, e = .client now pkt) ∨
+          ((∃ now pkt, e = .client now pkt ∧ l.core.connId ∈ s.failNext ∧
+              (Sys.step s e).1.failNext.count l.core.connId < s.failNext.count l.core.connId ∧
+              (SelShell.clientTarget s pkt now = some j ∨
+               (SelShell.clientTarget s pkt now ≠ some j ∧ s.cfg.stallDeselect = true ∧
+                 s.reg.hasConnected = true ∧ l.core.connected = true ∧
+                 (Codec.getSrtSequenceNumberS pkt).isSome = true))) ∨
            (∃ now cid data, e = .uplink now cid data ∧ s.links.findIdx? (·.core.connId == cid) = some j ∧
-              l' = l.markForRecovery) ∨
+              Codec.getPacketTypeS data = some 0x9210 ∧ l' = l.markForRecovery) ∨
            (∃ now, e = .hk now ∧ l.isTimedOut now = true ∧ l.shouldAttemptReconnect now = true ∧
-              l.core.connId ∈ s.failBind))) ∨
-       (l'.core.cong = {} ∧ ∃ now, e = .hk now ∧ l.isTimedOut now = true ∧ l.shouldAttemptReconnect now = true))) ∨
+              ¬ (Hk.hkGraceIdx s now = some j ∧ l.established = 0) ∧ l.core.connId ∈ s.failBind))) ∨
+       (l'.core.cong = {} ∧ ∃ now, e = .hk now ∧ l.isTimedOut now = true ∧ l.shouldAttemptReconnect now = true ∧
+          ¬ (Hk.hkGraceIdx s now = some j ∧ l.established = 0)))) ∨
     (∃ now cid data, e = .uplink now cid data ∧ s.links.findIdx? (·.core.connId == cid) = some j ∧
       l' = Uplink.reg3Link l now ∧ l'.core.window = l.core.window ∧ l'.core.cong = {} ∧ l'.core.connected = true) := by
-  obtain ⟨l'', h1, hs⟩ := (Hk.step_link s e).1 j l hl
-  rw [hl'] at h1
-  cases h1
-  cases hs with
-  | evolves cto hcto h => exact .inl ⟨h.connected, h.phaseReg⟩
-  | sendFail now pkt he h hcons =>
-    subst he
-    have hc := (C06_direction_client s now pkt j l l' hl hl').1
-    exact .inr (.inl ⟨h.clean.window, h.clean.connected, h.phase, h.clean.log, h.clean.inFlight, h.clean.queue,
-      .inl ⟨hc, .inl ⟨now, pkt, rfl⟩⟩⟩)
-  | reg3 now cid data he hidx hev hl3 hhc =>
-    subst he
-    have e3 : l' = Uplink.reg3Link l now := hl3
-    exact .inr (.inr ⟨now, cid, data, rfl, hidx, e3, by rw [e3]; rfl, by rw [e3]; rfl, by rw [e3]; rfl⟩)
-  | regErr now cid data he hidx hev hlE =>
-    subst he
-    have hcl := Hk.clean_markForRecovery l
-    rw [← hlE] at hcl
-    exact .inr (.inl ⟨hcl.window, hcl.connected, by rw [hlE]; rfl, hcl.log, hcl.inFlight, hcl.queue,
-      .inl ⟨by rw [hlE]; rfl, .inr (.inl ⟨now, cid, data, rfl, hidx, hlE⟩)⟩⟩)
-  | attempt now he hto hsa hla =>
-    subst he
-    obtain ⟨t, ht⟩ := hla
-    obtain ⟨-, -, -, -, -, f6, -, f8, -, f10⟩ := Hk.reconnectLink_fields l now
-    have w : l'.core.window = 20000 := by rw [ht]; exact f10.window
-    have cn : l'.core.connected = false := by rw [ht]; exact f10.connected
-    have ph : l'.core.phase = .registering := by rw [ht]; exact f6
-    have lg : l'.core.log = [] := by rw [ht]; exact f10.log
-    have inf : l'.core.inFlight = 0 := by rw [ht]; exact f10.inFlight
-    have q : l'.queue = [] := by rw [ht]; exact f10.queue
-    have cg : l'.core.cong = {} := by rw [ht]; exact f8
-    exact .inr (.inl ⟨w, cn, ph, lg, inf, q, .inr ⟨cg, now, rfl, hto, hsa⟩⟩)
-  | attemptFailed now he hto hsa hfb hla =>
-    subst he
-    obtain ⟨t, ht⟩ := hla
-    obtain ⟨-, -, -, -, -, f6, -, -, f9⟩ := Hk.failedLink_fields l now
-    have hra : (l.recordAttempt now).core = l.core := by unfold FLink.recordAttempt; split <;> rfl
-    have w : l'.core.window = 20000 := by rw [ht]; exact f9.window
-    have cn : l'.core.connected = false := by rw [ht]; exact f9.connected
-    have ph : l'.core.phase = .registering := by rw [ht]; exact f6
-    have lg : l'.core.log = [] := by rw [ht]; exact f9.log
-    have inf : l'.core.inFlight = 0 := by rw [ht]; exact f9.inFlight
-    have q : l'.queue = [] := by rw [ht]; exact f9.queue
-    have cg : l'.core.cong = l.core.cong := by
-      rw [ht]
-      show (l.recordAttempt now).core.cong = l.core.cong
-      rw [hra]
-    exact .inr (.inl ⟨w, cn, ph, lg, inf, q, .inl ⟨cg, .inr (.inr ⟨now, rfl, hto, hsa, hfb⟩)⟩⟩)
+  cases e with
+  | client now pkt =>
+    have hl2 : (Sys.handleSrtPacket s pkt now).1.links[j]? = some l' := hl'
+    have hcong := (C06_direction_client s now pkt j l l' hl hl').1
+    have hx : Audit2B.SendX s.failNext (Sys.handleSrtPacket s pkt now).1.failNext l l' := by
+      obtain ⟨l'', h1, hx⟩ := (Audit2B.client_px s pkt now).get j l hl
+      rw [hl2] at h1; cases h1; exact hx
+    cases SelShell.client_liveAcct s pkt now j l l' hl hl2 with
+    | idle ht h =>
+      have hc : l'.core = l.core := congrArg (·.core) h
+      exact .inl ⟨by rw [hc], by rw [hc]⟩
+    | target ht h =>
+      rcases hx with hk | ⟨hr, -, hlt⟩
+      · exact .inl ⟨hk.connected, hk.phaseReg⟩
+      · exact .inr (.inl ⟨hr.1.window, hr.1.connected, hr.2, hr.1.log, hr.1.inFlight, hr.1.queue,
+          .inl ⟨hcong, .inl ⟨now, pkt, rfl, List.count_pos_iff.1 (by omega), hlt, .inl ht⟩⟩⟩)
+    | probe ht hne hreg hon hseq hsome hc hg h =>
+      rcases hx with hk | ⟨hr, -, hlt⟩
+      · exact .inl ⟨hk.connected, hk.phaseReg⟩
+      · exact .inr (.inl ⟨hr.1.window, hr.1.connected, hr.2, hr.1.log, hr.1.inFlight, hr.1.queue,
+          .inl ⟨hcong, .inl ⟨now, pkt, rfl, List.count_pos_iff.1 (by omega), hlt,
+            .inr ⟨ht, hon, hreg, hc, hseq⟩⟩⟩⟩)
+  | uplink now cid data =>
+    obtain ⟨l'', h1, hs⟩ := (Hk.step_link s (.uplink now cid data)).1 j l hl
+    rw [hl'] at h1
+    cases h1
+    cases hs with
+    | evolves cto hcto h => exact .inl ⟨h.connected, h.phaseReg⟩
+    | sendFail now' pkt he h hcons => cases he
+    | reg3 now' cid' data' he hidx hev hl3 hhc =>
+      cases he
+      have e3 : l' = Uplink.reg3Link l now := hl3
+      exact .inr (.inr ⟨now, cid, data, rfl, hidx, e3, by rw [e3]; rfl, by rw [e3]; rfl, by rw [e3]; rfl⟩)
+    | regErr now' cid' data' he hidx hev hlE =>
+      cases he
+      have hcl := Hk.clean_markForRecovery l
+      rw [← hlE] at hcl
+      exact .inr (.inl ⟨hcl.window, hcl.connected, by rw [hlE]; rfl, hcl.log, hcl.inFlight, hcl.queue,
+        .inl ⟨by rw [hlE]; rfl, .inr (.inl ⟨now, cid, data, rfl, hidx,
+          (Hk.regEvent_of_type s.reg j data now).1.1 hev, hlE⟩)⟩⟩)
+    | attempt now' he => cases he
+    | attemptFailed now' he => cases he
+  | hk now =>
+    have hl2 : (Sys.handleHousekeeping s now).1.links[j]? = some l' := hl'
+    cases hd : Audit2B.hkDue s now j l with
+    | false =>
+      obtain ⟨l'', h1, h⟩ := Audit2B.hk_not_due_link s now j l hl hd
+      rw [hl2] at h1; cases h1
+      exact .inl ⟨h.connected, h.phaseReg⟩
+    | true =>
+      obtain ⟨hto, hsa, hgr⟩ := (Audit2B.hkDue_iff s now j l).1 hd
+      obtain ⟨t, ht⟩ := Audit2B.hk_due_link s now j l hl hd
+      rw [hl2] at ht
+      have ht : l' = Hk.withSent (Hk.attemptLink (Hk.hkFails s now j l.core.connId) l now) t :=
+        Option.some.inj ht
+      cases hf : Hk.hkFails s now j l.core.connId with
+      | false =>
+        rw [hf] at ht
+        have ht' : l' = Hk.withSent (Hk.reconnectLink l now) t := ht
+        obtain ⟨-, -, -, -, -, f6, -, f8, -, f10⟩ := Hk.reconnectLink_fields l now
+        exact .inr (.inl ⟨by rw [ht']; exact f10.window, by rw [ht']; exact f10.connected, by rw [ht']; exact f6,
+          by rw [ht']; exact f10.log, by rw [ht']; exact f10.inFlight, by rw [ht']; exact f10.queue,
+          .inr ⟨by rw [ht']; exact f8, now, rfl, hto, hsa, hgr⟩⟩)
+      | true =>
+        rw [hf] at ht
+        have ht' : l' = Hk.withSent (Hk.failedLink l now) t := ht
+        obtain ⟨-, -, -, -, -, f6, -, -, f9⟩ := Hk.failedLink_fields l now
+        have hra : (l.recordAttempt now).core = l.core := by unfold FLink.recordAttempt; split <;> rfl
+        have cg : l'.core.cong = l.core.cong := by
+          rw [ht']
+          show (l.recordAttempt now).core.cong = l.core.cong
+          rw [hra]
+        exact .inr (.inl ⟨by rw [ht']; exact f9.window, by rw [ht']; exact f9.connected, by rw [ht']; exact f6,
+          by rw [ht']; exact f9.log, by rw [ht']; exact f9.inFlight, by rw [ht']; exact f9.queue,
+          .inl ⟨cg, .inr (.inr ⟨now, rfl, hto, hsa, hgr, Hk.hkFails_mem s now j _ hf⟩)⟩⟩)
+  | _ =>
+    obtain ⟨l'', h1, hs⟩ := (Hk.step_link s _).1 j l hl
+    rw [hl'] at h1
+    cases h1
+    cases hs with
+    | evolves cto hcto h => exact .inl ⟨h.connected, h.phaseReg⟩
+    | sendFail now' pkt he h hcons => cases he
+    | reg3 now' cid' data' he => cases he
+    | regErr now' cid' data' he => cases he
+    | attempt now' he => cases he
+    | attemptFailed now' he => cases he
+
+/-- The state every tear-down leaves behind: window back at 20000, nothing in flight, logged or queued, not
+connected, registering. -/
+def TornDown (l' : FLink F) : Prop :=
+  l'.core.window = 20000 ∧ l'.core.inFlight = 0 ∧ l'.core.log = [] ∧ l'.queue = [] ∧
+  l'.core.connected = false ∧ l'.core.phase = .registering
+
+/-- **The three causes of a tear-down of link `j`, as conditions on the event and the PRE-state** (`l` = the
+link's record before the event):
+* a REG_ERR datagram (type code 0x9210) arrives on the link's conn id (receiver-initiated);
+* a client datagram whose handling CONSUMES an injected send failure for the link's conn id — i.e. a batch of
+  this link was taken (`take_batch`) and its `send_all_datagrams` failed (the failure list loses one entry for
+  that id); the link is the chosen link or one that got a stall-probe copy (`C06_reset_sys`);
+* a housekeeping tick that finds the link timed out with a reconnect attempt due (`is_timed_out ∧
+  should_attempt_reconnect` at the tick's clock) — whether the socket re-creation then succeeds or is refused —
+  except the one never-established link whose start-up grace window this very tick re-arms because the
+  start-up probing completes in it (`Hk.hkGraceIdx`, `none` unless the manager was still probing).
+A periodic flush is NOT in the list: `flush_all_batches` only warns when its send fails. -/
+def TearCause (s : Sys.Sys F) (e : Sys.Ev) (j : Nat) (l : FLink F) : Prop :=
+  (∃ now cid data, e = .uplink now cid data ∧ s.links.findIdx? (·.core.connId == cid) = some j ∧
+    Codec.getPacketTypeS data = some 0x9210) ∨
+  (∃ now pkt, e = .client now pkt ∧
+    (Sys.step s e).1.failNext.count l.core.connId < s.failNext.count l.core.connId) ∨
+  (∃ now, e = .hk now ∧ l.isTimedOut now = true ∧ l.shouldAttemptReconnect now = true ∧
+    ¬ (Hk.hkGraceIdx s now = some j ∧ l.established = 0))
+
+/-- **Condition ⇒ reset** (audit round 2: `C06_reset_sys` reads "IF the flags changed THEN a cause" and is
+silent about a link that was ALREADY registering and not connected; this is the direction the property sentence
+"returns to 20000 whenever the link is torn down for recovery or reconnect" needs).  For every event of the shell
+and every link `j` (`l` before, `l'` after):
+
+1. IF a tear-down cause holds (`TearCause`: REG_ERR on the link's conn id / a client datagram that consumes an
+   injected send failure for it / a tick that finds it timed out and due) THEN the link comes out `TornDown`:
+   window 20000, in-flight 0, log and queue empty, not connected, registering — WHATEVER `connected`, the phase
+   and the window were before (a never-registered link whose window moved on pre-registration traffic
+   included).  For the client cause the conn ids of the links are assumed pairwise distinct (`C01`'s invariant:
+   they are allocated from a counter), so that "a failure for this conn id" identifies the link.
+2. The client cause for the CHOSEN link as a pure pre-state condition, no distinctness needed: if `j` is the link
+   the datagram is forwarded on, the batch threshold is reached with this datagram
+   (`batchSize ≤ queued + 1`) and a send failure is pending for its conn id, then the link comes out `TornDown`
+   and that failure is consumed.
+3. A periodic flush is never a tear-down, not even when it consumes an injected failure: window, `connected`
+   and registering-ness of every link are what they were (the batch is lost: `C01`'s `LossCause (.flush)`).
+4. The converse frame: with NO cause the link is not torn down — `connected` and registering-ness are kept, or
+   the event is a REG3 on this link (window kept) — and the window moves only as `C06_direction_sys` says with
+   the reset alternative REMOVED: a client datagram leaves it alone, a REG_ERR (necessarily on another link)
+   leaves it alone, a tick does not lower it and in classic mode leaves it alone (`[1000, 60000]` assumed of the
+   pre-state: `RangeInv`); the other uplink types are `C06_direction_uplink`. -/
+theorem C06_teardown_resets_window_sys (s : Sys.Sys F) (e : Sys.Ev) (hr : RangeInv s) (j : Nat) (l l' : FLink F)
+    (hl : s.links[j]? = some l) (hl' : (Sys.step s e).1.links[j]? = some l') :
+    (TearCause s e j l → ((∃ now pkt, e = .client now pkt) → (s.links.map (·.core.connId)).Nodup) →
+      TornDown l') ∧
+    (∀ now pkt, e = .client now pkt → SelShell.clientTarget s pkt now = some j →
+      l.regime.batchSize ≤ l.queue.length + 1 → s.failNext.contains l.core.connId = true →
+      TornDown l' ∧ (Sys.step s e).1.failNext.count l.core.connId < s.failNext.count l.core.connId) ∧
+    (∀ now, e = .flush now →
+      l'.core.window = l.core.window ∧ l'.core.connected = l.core.connected ∧
+      (l'.core.phase = .registering ↔ l.core.phase = .registering)) ∧
+    (¬ TearCause s e j l →
+      ((l'.core.connected = l.core.connected ∧ (l'.core.phase = .registering ↔ l.core.phase = .registering)) ∨
+       (∃ now cid data, e = .uplink now cid data ∧ s.links.findIdx? (·.core.connId == cid) = some j ∧
+          l' = Uplink.reg3Link l now ∧ l'.core.window = l.core.window ∧ l'.core.connected = true)) ∧
+      (∀ now pkt, e = .client now pkt → l'.core.window = l.core.window) ∧
+      (∀ now, e = .hk now →
+        l.core.window ≤ l'.core.window ∧ (s.cfg.classic = true → l'.core.window = l.core.window)) ∧
+      (∀ now cid data, e = .uplink now cid data → Codec.getPacketTypeS data = some 0x9210 →
+        l'.core.window = l.core.window)) := by
+  have hin : InRange l.core.window := hr l (List.mem_of_getElem? hl)
+  have ofReset : ∀ {x : FLink F}, Audit2B.Reset x → TornDown x := fun h =>
+    ⟨h.1.window, h.1.inFlight, h.1.log, h.1.queue, h.1.connected, h.2⟩
+  refine ⟨?_, ?_, ?_, ?_⟩
+  · -- (1) cause ⇒ reset
+    rintro (⟨now, cid, data, rfl, hidx, hty⟩ | ⟨now, pkt, rfl, hlt⟩ | ⟨now, rfl, hto, hsa, hgr⟩) hnd
+    · have h := Audit2B.regErr_link s cid data now j l hl hidx hty
+      have hl2 : (Sys.handleUplinkPacket s cid data now).1.links[j]? = some l' := hl'
+      rw [hl2] at h
+      have e' : l' = l.markForRecovery := Option.some.inj h
+      rw [e']
+      exact ofReset (Audit2B.reset_markForRecovery l)
+    · exact ofReset (Audit2B.client_consumed_link s pkt now j l l' (hnd ⟨now, pkt, rfl⟩) hl hl' hlt)
+    · have hd : Audit2B.hkDue s now j l = true := (Audit2B.hkDue_iff s now j l).2 ⟨hto, hsa, hgr⟩
+      obtain ⟨t, ht⟩ := Audit2B.hk_due_link s now j l hl hd
+      have hl2 : (Sys.handleHousekeeping s now).1.links[j]? = some l' := hl'
+      rw [hl2] at ht
+      have e' : l' = Hk.withSent (Hk.attemptLink (Hk.hkFails s now j l.core.connId) l now) t := Option.some.inj ht
+      obtain ⟨-, -, -, f4, -, -, f7⟩ := Hk.attemptLink_fields (Hk.hkFails s now j l.core.connId) l now
+      rw [e']
+      exact ⟨f7.window, f7.inFlight, f7.log, f7.queue, f7.connected, f4⟩
+  · -- (2) the chosen link, pre-state form
+    rintro now pkt rfl htgt hthr hfn
+    have hl2 : (Sys.handleSrtPacket s pkt now).1.links[j]? = some l' := hl'
+    have hq : (l.queueDataPacket pkt (Codec.getSrtSequenceNumberS pkt) now).2 = true := by
+      unfold FLink.queueDataPacket
+      simp only [List.length_append, List.length_cons, List.length_nil, decide_eq_true_eq]
+      omega
+    obtain ⟨h1, h2⟩ := Audit2B.client_target_fails s pkt now j l l' hl hl2 htgt hq hfn
+    exact ⟨ofReset h1, h2⟩
+  · -- (3) periodic flush
+    rintro now rfl
+    obtain ⟨a, -, c⟩ := C06_direction_flush s now j l l' hl hl'
+    refine ⟨a, c, ?_⟩
+    obtain ⟨l'', h1, hs⟩ := (Hk.step_link s (.flush now)).1 j l hl
+    rw [hl'] at h1; cases h1
+    cases hs with
+    | evolves cto hcto h => exact h.phaseReg
+    | sendFail now' pkt he => cases he
+    | reg3 now' cid' data' he => cases he
+    | regErr now' cid' data' he => cases he
+    | attempt now' he => cases he
+    | attemptFailed now' he => cases he
+  · -- (4) converse frame
+    intro hno
+    refine ⟨?_, ?_, ?_, ?_⟩
+    · rcases C06_reset_sys s e j l l' hl hl' with h | h | h
+      · exact .inl h
+      · exfalso
+        obtain ⟨-, -, -, -, -, -, hc⟩ := h
+        rcases hc with ⟨-, ⟨now, pkt, he, -, hlt, -⟩ | ⟨now, cid, data, he, hidx, hty, -⟩ | ⟨now, he, hto, hsa, hgr, -⟩⟩ |
+          ⟨-, now, he, hto, hsa, hgr⟩
+        · exact hno (.inr (.inl ⟨now, pkt, he, hlt⟩))
+        · exact hno (.inl ⟨now, cid, data, he, hidx, hty⟩)
+        · exact hno (.inr (.inr ⟨now, he, hto, hsa, hgr⟩))
+        · exact hno (.inr (.inr ⟨now, he, hto, hsa, hgr⟩))
+      · obtain ⟨now, cid, data, he, hidx, e3, hw, -, hcn⟩ := h
+        exact .inr ⟨now, cid, data, he, hidx, e3, hw, hcn⟩
+    · rintro now pkt rfl
+      obtain ⟨l'', h1, hx⟩ := (Audit2B.client_px s pkt now).get j l hl
+      have hl2 : (Sys.handleSrtPacket s pkt now).1.links[j]? = some l' := hl'
+      rw [hl2] at h1; cases h1
+      rcases hx with hk | ⟨-, -, hlt⟩
+      · exact hk.window
+      · exact absurd (.inr (.inl ⟨now, pkt, rfl, hlt⟩)) hno
+    · rintro now rfl
+      have hd : Audit2B.hkDue s now j l = false := by
+        cases hd : Audit2B.hkDue s now j l with
+        | false => rfl
+        | true =>
+          obtain ⟨hto, hsa, hgr⟩ := (Audit2B.hkDue_iff s now j l).1 hd
+          exact absurd (.inr (.inr ⟨now, rfl, hto, hsa, hgr⟩)) hno
+      obtain ⟨l'', h1, h2, h3⟩ := Audit2B.hk_not_due_window s now j l hl hd hin.1 hin.2
+      have hl2 : (Sys.handleHousekeeping s now).1.links[j]? = some l' := hl'
+      rw [hl2] at h1; cases h1
+      exact ⟨h2, h3⟩
+    · rintro now cid data rfl hty
+      rcases ((C06_direction_uplink s now cid data hr j l l' hl hl').2 _ hty).2.2.1 rfl |>.2 with h | h
+      · exact h.1
+      · exact absurd (.inl ⟨now, cid, data, rfl, h.2.2, hty⟩) hno
 
 end reset
 
@@ -1292,6 +1494,96 @@ example := C06_direction_client (Sys.step exSysD (.failNext 1)).1 5000 exData12 
 example := C06_direction_flush exSysD 5000 0 _ _ rfl rfl
 example := C06_direction_config exSysD { classic := true } 7 1
 example := C06_reset_ops (FLink.newRegistering 1 0 : FLink Int) 5000 3 0
+
+/-! ### `C06_teardown_resets_window_sys`: the causes are satisfiable, and the case `C06_reset_sys` is silent about -/
+
+/-- A NEVER-registered link (conn id 7: not connected, registering — so the first disjunct of `C06_reset_sys`
+holds of ANY tear-down of it) whose window moved to 23000 and which logged / queued pre-registration traffic. -/
+def exPre : Sys.Sys Int :=
+  { links :=
+      [{ (FLink.newRegistering 7 0 : FLink Int) with
+          core := { connId := 7, window := 23000, inFlight := 1, log := [(3, 10)], lastReceived := some 90 },
+          queue := [([0, 0, 0, 4, 0, 0, 0, 0], some 4, 95)], lastAttemptMs := 50 }],
+    reg := Srtla.Reg.Reg.new [] [] }
+
+theorem exPre_range : RangeInv exPre := by
+  intro l hl
+  simp only [exPre, List.mem_cons, List.not_mem_nil, or_false] at hl
+  subst hl
+  exact ⟨by decide, by decide⟩
+
+/-- Cause 1 (REG_ERR on the link's conn id) on the never-registered link: the flags do not change
+(`(false, registering)` before and after) and yet window 23000 → 20000, in-flight 1 → 0, log and queue emptied. -/
+example :
+    (exPre.links.map fun l => (l.core.window, l.core.inFlight, l.core.log.length, l.queue.length, l.core.connected))
+      = [(23000, 1, 1, 1, false)] ∧
+    exPre.links.map (·.core.phase) = [.registering] ∧
+    ((Sys.step exPre (.uplink 100 7 exRegErr)).1.links.map fun l =>
+      (l.core.window, l.core.inFlight, l.core.log.length, l.queue.length, l.core.connected))
+      = [(20000, 0, 0, 0, false)] ∧
+    (Sys.step exPre (.uplink 100 7 exRegErr)).1.links.map (·.core.phase) = [.registering] := by
+  decide +kernel
+
+example : TearCause exPre (.uplink 100 7 exRegErr) 0 exPre.links[0] :=
+  .inl ⟨100, 7, exRegErr, rfl, by decide, by decide⟩
+
+example := (C06_teardown_resets_window_sys exPre (.uplink 100 7 exRegErr) exPre_range 0 _ _ rfl rfl).1
+  (.inl ⟨100, 7, exRegErr, rfl, by decide, by decide⟩) (fun ⟨_, _, h⟩ => by cases h)
+
+/-- Cause 3 (tick finds it timed out and due) on the same link: grace over at 5000, last attempt at 50 — at
+`now = 20000` it is timed out and due, no probing in progress; window 23000 → 20000. -/
+example :
+    (exPre.links.map fun l => (FLink.isTimedOut l 20000, l.shouldAttemptReconnect 20000)) = [(true, true)] ∧
+    Hk.hkGraceIdx exPre 20000 = none ∧
+    ((Sys.step exPre (.hk 20000)).1.links.map fun l => (l.core.window, l.core.inFlight, l.core.log.length, l.queue.length))
+      = [(20000, 0, 0, 0)] := by
+  decide +kernel
+
+example := (C06_teardown_resets_window_sys exPre (.hk 20000) exPre_range 0 _ _ rfl rfl).1
+  (.inr (.inr ⟨20000, rfl, by decide +kernel, by decide +kernel, fun h => by
+    have : Hk.hkGraceIdx exPre 20000 = none := by decide +kernel
+    rw [this] at h; cases h.1⟩)) (fun ⟨_, _, h⟩ => by cases h)
+
+/-- Cause 2 (a client datagram consumes an injected send failure), both forms, on `exSysD` with a failure
+injected for conn id 1: link 0 is the chosen link (`clientTarget`), its queue holds 3 and the low-activity
+threshold is 4 (`4 ≤ 3 + 1`), a failure is pending for its conn id — the pre-state form of clause 2; the event
+consumes it (count 1 → 0) and the conn ids `[1, 2]` are distinct — the form of clause 1; window 2050 → 20000. -/
+example :
+    let s := (Sys.step exSysD (.failNext 1)).1
+    SelShell.clientTarget s exData12 5000 = some 0 ∧
+    (s.links.map fun l => (l.regime.batchSize, l.queue.length, s.failNext.contains l.core.connId)) =
+      [(4, 3, true), (16, 0, false)] ∧
+    (s.failNext.count 1, (Sys.step s (.client 5000 exData12)).1.failNext.count 1) = (1, 0) ∧
+    (s.links.map (·.core.connId)).Nodup ∧
+    ((Sys.step s (.client 5000 exData12)).1.links.map fun l =>
+      (l.core.window, l.core.inFlight, l.core.log.length, l.queue.length, l.core.connected)) =
+      [(20000, 0, 0, 0, false), (11990, 0, 0, 0, true)] := by
+  decide +kernel
+
+example := (C06_teardown_resets_window_sys (Sys.step exSysD (.failNext 1)).1 (.client 5000 exData12)
+    (by intro l hl; exact exSysD_range l hl) 0 _ _ rfl rfl).2.1 5000 exData12 rfl
+  (by decide +kernel) (by decide +kernel) (by decide +kernel)
+
+/-- Clause 3 (a periodic flush is no tear-down, even when it consumes the injected failure): the flush of link 0's
+three queued datagrams fails — the failure is consumed (count 1 → 0), the batch is lost (queue emptied, the three
+packets registered: in-flight 2 → 5) — window, `connected` and phase untouched. -/
+example :
+    let s := (Sys.step exSysD (.failNext 1)).1
+    (s.failNext.count 1, (Sys.step s (.flush 5000)).1.failNext.count 1) = (1, 0) ∧
+    (Sys.step s (.flush 5000)).2.wire = [] ∧
+    ((Sys.step s (.flush 5000)).1.links.map fun l =>
+      (l.core.window, l.core.inFlight, l.queue.length, l.core.connected)) =
+      [(2050, 5, 0, true), (11990, 0, 0, true)] := by
+  decide +kernel
+
+/-- Clause 4 (no cause): the same client datagram WITHOUT the injection — `TearCause` fails for link 0 (nothing
+to consume), the window stays 2050. -/
+example : ¬ TearCause exSysD (.client 5000 exData12) 0 exSysD.links[0] := by
+  rintro (⟨_, _, _, h, -⟩ | ⟨_, _, h, hlt⟩ | ⟨_, h, -⟩)
+  · cases h
+  · cases h
+    exact absurd hlt (by decide +kernel)
+  · cases h
 
 /-- The abstract history lemmas on a literal history: three NAKs from 2150 (fast recovery entered at 1950). -/
 example : (run { w := 2150, cong := {}, connected := true, heard := true } [.nak 10, .nak 20, .nak 30]).w = 1850 ∧
